@@ -226,8 +226,8 @@ func replaceIfNaturalLanguageValues(old, new NaturalLanguageValues) NaturalLangu
 }
 
 func replaceIfSource(to, from Source) Source {
-	if from.MediaType != to.MediaType {
-		return from
+	if len(from.MediaType) > 0 {
+		to.MediaType = from.MediaType
 	}
 	to.Content = replaceIfNaturalLanguageValues(to.Content, from.Content)
 	return to
